@@ -6,12 +6,15 @@ Real code driven (nothing in /repo is modified): `db.util.encode/move`, `Connect
 and the `__main__` block of `db/tools/purge.py`, against real dbm/shelve files, a real staging
 directory and a real store directory in a fresh temp dir, with the real `md5sum`/`sha1sum`.
 
-Every history is executed in a forked child.  A crash is a real `os._exit` of that child in front
-of the n-th file-system / table / wire call it makes (module attributes of `dawgie.db.util`,
-`shelve.Shelf.__setitem__/__delitem__`, `Worker._send`, `Task.new_values` are wrapped by counting
-pass-throughs) — for EVERY n of the history, not a sample.  The parent then reads the directories
-and the dbm files from disk, as a restarted pipeline would, and evaluates the property
-(`monitor`) and the Lean model's prediction for the same micro-step history (`correspond`)."""
+Every history is executed once, in-process.  In front of EVERY file-system / table / wire call the
+real code makes (module attributes of `dawgie.db.util`, `shelve.Shelf.__setitem__/__delitem__`,
+`Worker._send`, `Task.new_values` are replaced by counting pass-throughs) the directories and dbm files
+are copied: the copy is exactly what a process killed at that point leaves behind (each `pickle.dump`
+is additionally torn half-way).  Every copy is re-read from disk as a restarted pipeline would,
+judged by the property (`monitor`), compared with the Lean model run on the same micro-step budgets
+(`compare`), and the remainder of the history is executed on it (restart: the interrupted operation
+retried or abandoned).  A sample of crash points is repeated with a forked process that really dies
+(`os._exit`) to validate the copy method.  Crash points are enumerated, not sampled."""
 import hashlib
 import json
 import os
@@ -961,6 +964,10 @@ CORPUS = [
     [upd(1, 'T1', 'tk1', 'A1', [['S1', [['v1', 5]]]]), upd(1, 'T2', 'tk1', 'A1', [['S1', [['v1', 6]]]]),
      {'kind': 'remove', 'run': 1, 'target': 'T1', 'task': 'tk1', 'alg': 'A1', 'sv': 'S1', 'vn': 'v1'},
      {'kind': 'purge'}, upd(2, 'T1', 'tk1', 'A1', [['S1', [['v1', 5]]]])],
+    # the catalogue becomes empty while the store is not: purge.py refuses to run, the content stays (not new)
+    [upd(1, 'T1', 'tk1', 'A1', [['S1', [['v1', 4]]]]),
+     {'kind': 'remove', 'run': 1, 'target': 'T1', 'task': 'tk1', 'alg': 'A1', 'sv': 'S1', 'vn': 'v1'},
+     {'kind': 'purge'}, upd(2, 'T2', 'tk1', 'A1', [['S1', [['v1', 4]]]])],
     # purge on an empty catalogue must not delete anything
     [{'kind': 'purge'}, upd(1, 'T1', 'tk1', 'A1', [['S1', [['v1', 1]]]]), {'kind': 'purge'}],
 ]
